@@ -67,11 +67,15 @@ def load_known():
 
 
 def run_property(pid, rules, repo, tier, explanation, assumptions, extra=None, replay_key=None,
-                 write_evidence=True, quiet=False):
-    """Run the rules, print the protocol lines, write evidence, return exit status."""
-    t0 = time.time()
+                 write_evidence=True, quiet=False, precomputed=None, t_start=None):
+    """Run the rules, print the protocol lines, write evidence, return exit status.
+    `precomputed` = (results, analysis_errors) of an earlier call: the rules are not run again (evidence pass)."""
+    t0 = t_start or time.time()
     results = []
     analysis_errors = []
+    if precomputed is not None:
+        results, analysis_errors = list(precomputed[0]), list(precomputed[1])
+        rules = []
     for rule in rules:
         try:
             res = rule(repo)
@@ -153,6 +157,7 @@ def run_property(pid, rules, repo, tier, explanation, assumptions, extra=None, r
         os.makedirs(os.path.join(VERIF, 'evidence'), exist_ok=True)
         with open(os.path.join(VERIF, 'evidence', f'{pid}.json'), 'w') as fh:
             json.dump(ev, fh, indent=1)
+    run_property.last = (results, analysis_errors)
     if analysis_errors and not violations:
         raise AnalysisError(' || '.join(analysis_errors))
     if analysis_errors and not quiet:
